@@ -239,9 +239,15 @@ while time.time() < end:
             udp.sendto(os.urandom(random.randrange(0, 64)), (dst, 30000 + n % 5000))
     except OSError:
         pass
-    if n % 8 == 0:
-        time.sleep(0.001)
+    if n % 4 == 0:
+        time.sleep(0.004)
 `
+
+// floodSem: at most two flood labs at a time. The flood is meant to exercise the tool's handling of frames it does not
+// expect, not to overrun the capture socket's receive buffer (about 200 kB): at most 1000 frames (about 1 MB) per second,
+// so that a tool that is descheduled for 100 ms on a loaded machine still finds its replies queued. (Thorough seed 3 on a
+// machine at load 30 lost replies with 8000 frames/s and seven labs at once: the kernel drops what the socket cannot hold.)
+var floodSem = make(chan struct{}, 2)
 
 func runKernelCfg(tag string, cfg kernelCfg) (out kernelOutcome) {
 	out.counters = map[string]int{}
@@ -364,6 +370,8 @@ func runKernelCfg(tag string, cfg kernelCfg) (out kernelOutcome) {
 		return
 	}
 	// C09: flood from router 1 towards the source host for the whole judged phase
+	floodSem <- struct{}{}
+	defer func() { <-floodSem }()
 	fam, src := "4", l.addr4(1, false)
 	if cfg.v6 {
 		fam, src = "6", l.addr6(1, false)
